@@ -162,6 +162,13 @@ theorem C20_method_faults_counterexample_memory_maps :
     faultOK .windows ⟨"memory_maps", []⟩ "QueryDosDevice" ⟨.ESRCH, none⟩ ⟨42, .alive, true⟩ = false := by
   decide
 
+/-- the pre-fix `_pssunos._proc_basic_info` raised `AccessDenied(self.pid)` without the cached
+    name: Solaris `uids()` on an unreadable PID 0 then shows an AccessDenied that lost the name -/
+theorem C20_method_faults_counterexample_sunos_pid0 :
+    Spec.allowed .sunos "uids" (Spec.recoverable .sunos "uids" "proc_cred") ⟨.EPERM, none⟩ ⟨0, .gone, true⟩
+      (methodFault { cfg with sunosPid0Named := false } .sunos ⟨"uids", ["wrap_exceptions"]⟩ "proc_cred"
+        ⟨.EPERM, none⟩ ⟨0, .gone, true⟩ false).1 = false := by decide
+
 theorem C20_method_faults_not_full : ¬ C20_method_faults_within_spec_Full := by
   intro h
   have := h .windows (by decide) ("ppid", 42, ["ppid_map"]) (by decide)
@@ -289,10 +296,11 @@ example : (netIfAddrsEntry cfg false ⟨.link, "00:1a".toList, 0, none, none⟩)
 /-- **C20_broadcast_takes_effect.** On Windows, for an AF_INET address with a netmask, the
     tuple `net_if_addrs()` returns carries the computed broadcast address. -/
 theorem C20_broadcast_takes_effect (r : RawAddr) (n : Nat) (hf : r.fam = .inet) (hp : r.plen = some n)
-    (hn : n ≤ 32) :
-    (netIfAddrsEntry cfg true r).bcast = some (ipv4Broadcast r.ip n) := by
+    (hn : n ≤ 32) (hip : r.ip < 2 ^ 32) :
+    ∃ b, (netIfAddrsEntry cfg true r).bcast = some b ∧ Spec.IsBroadcast r.ip n b := by
   have hfam : (r.fam == AddrFam.inet) = true := by rw [hf]; decide
   have hlink : (r.fam == AddrFam.link) = false := by rw [hf]; decide
+  refine ⟨ipv4Broadcast r.ip n, ?_, fun i => ipv4Broadcast_bits r.ip n hip i⟩
   simp [netIfAddrsEntry, hfam, hlink, hp, hn, cfg_broadcast_assigned]
 
 /-- 192.168.1.10 / 255.255.255.0 → 192.168.1.255 -/
